@@ -27,7 +27,7 @@ KINDS = ['itch', 'ouch', 'sqf', 'asn1']
 SLEEP_STEP = 0.00015      # one timer of a sleeping callback: a bit more than a reader poll
 # model variant, PINNED to the repaired code (/repo 7eb8348): `_on_soup_close` sets `closed = True` before `await self._message_queue.stop()`.
 # The old order (after it, up to commit 35c133f) remains in the model as `closedFirst := false`, the subject of
-# Witness.C05App.C05App_witness_cleanup_close_deadlock; reverting the fix is a correspondence failure (flags) and an oracle violation.
+# Witness.C05AppOld.C05AppOld_witness_cleanup_close_deadlock; reverting the fix is a correspondence failure (flags) and an oracle violation.
 CLOSED_FIRST = bool(int(os.environ.get('VERIF_APP_CLOSED_FIRST', '1')))
 # message callbacks whose cancellation clean-up awaits app.close() (fixes/C05-app-close-in-cancel-cleanup.md)
 GEN_CLOSE_ON_CANCEL = True
@@ -425,6 +425,10 @@ def run_app_scenario(kind, mode, cb_beh, msg_beh, script, hb=0.004, settle=0.05,
                 await asyncio.sleep(0 if b[0] == 'await' else SLEEP_STEP)
         elif b == 'close':
             await do_close(app, who)
+        elif b == 'close2':
+            # closes twice in a row (not a behaviour of the Lean model: such scenarios go to the oracle only)
+            await do_close(app, who)
+            await do_close(app, who)
         elif b == 'raise':
             raise RuntimeError('handler failure (scripted)')
 
@@ -636,7 +640,15 @@ def acfg_sx(sc):
             CLOSED_FIRST]
 
 
+def oracle_only(sc):
+    """scenarios with a callback behaviour the Lean model does not have (`close2`: close() twice in a row): property oracle only"""
+    return sc['cb_beh'] == 'close2' or any(b == 'close2' for b in sc['msg_beh'].values())
+
+
 def model_request(sc, log):
+    if oracle_only(sc):
+        sc = dict(sc, cb_beh='close' if sc['cb_beh'] == 'close2' else sc['cb_beh'],
+                  msg_beh={k: ('close' if b == 'close2' else b) for k, b in sc['msg_beh'].items()})
     return 'app.run ' + sx(acfg_sx(sc)) + ' ' + ' '.join(sx(ev) for ev, _, _ in log)
 
 
@@ -693,7 +705,8 @@ def gen_template(rng, kind):
         # a burst in one segment; one of the first callbacks closes the session while the others are queued behind it
         k = rng.randint(2, 5)
         closer = rng.randint(1, 2)
-        sc['msg_beh'][closer] = rng.choice(['close', ('sleep_close', 1), ('sleep_close', 2), ('sleep_close', 4), ('sleep', 0), ('ccsleep', 1)])
+        sc['msg_beh'][closer] = rng.choice(['close', ('sleep_close', 1), ('sleep_close', 2), ('sleep_close', 4), ('sleep', 0), ('ccsleep', 1),
+                                            ('await_close', 2), 'close'])
         if rng.random() < 0.4:
             sc['msg_beh'][closer + 1] = rng.choice(MSG_BEHS)
         sc['script'] = [('data', list(range(1, k + 1))), tick()]
@@ -915,6 +928,34 @@ def late_cancels(sc, out):
     return n
 
 
+def handler_closes(out):
+    """the `close()` calls awaited from message callbacks in this run, classified (evidence distribution):
+    carried-out = the dispatcher task carried the close of the soup session out itself (the repaired path: the step in which the
+    call returned is the one in which `_on_soup_close` returned); soup-closing = past the guard, but the soup session was already
+    closed or closing: returned at once; guard = returned through the guard (event exists / `closed`); in-cleanup = called from the
+    cancellation clean-up of the callback; raised = ended with an exception"""
+    kinds = []
+    prev_flags = None
+    for ev, os_, snap in out['log']:
+        carried = False
+        for o in os_:
+            if isinstance(o, list) and o[0] == 'hclose':
+                if o[-1] != 'ok':
+                    kinds.append('raised')
+                elif 'icbExit' in os_ and not carried:
+                    carried = True
+                    kinds.append('carried-out')
+                elif any(isinstance(x, list) and x[0] == 'msgAbandon' and x[1] == o[1] for x in os_):
+                    kinds.append('in-cleanup')
+                elif prev_flags is not None and len(prev_flags) > 3 and prev_flags[3] == 'none' and not prev_flags[1]:
+                    kinds.append('soup-closing')
+                else:
+                    kinds.append('guard')
+        prev_flags = snap[2]
+    # a close that is still under way at the end of the run
+    return kinds
+
+
 def app_oracle(sc, out, prop):
     """property statements on the application session; returns list of (message, kind)"""
     sc = norm_scenario(sc)
@@ -997,11 +1038,36 @@ def app_oracle(sc, out, prop):
             if bad:
                 v.append((f'app.close() ended with {bad[0][2]}', 'scenario'))
             if any(i[1] != 'ok' for i in inner):
-                from_msg = any(b == 'close' or (isinstance(b, (tuple, list)) and b[0] in ('await_close', 'sleep_close'))
-                               for b in sc['msg_beh'].values())
-                first_bad = [i[1] for i in inner if i[1] != 'ok'][0]
-                v.append((f'app.close() called from a callback ended with {first_bad}',
-                          'app-close-from-message-callback' if from_msg and first_bad == 'cancelled' else 'scenario'))
+                # "close calls never raise ... a close requested from inside a message or close callback": nobody but the library
+                # can cancel the task that runs a callback, so every exception out of such a call is the library's doing
+                # (the former known finding C05-app-close-from-message-callback, repaired: fixes/C05-app-close-from-message-callback.md)
+                who = [o for _, os_, _ in out['log'] for o in os_ if isinstance(o, list) and o[0] in ('hclose', 'cbclose') and o[-1] != 'ok'][0]
+                v.append((f'app.close() awaited from {"the message callback for " + str(who[1]) if who[0] == "hclose" else "the close callback"} '
+                          f'ended with {"CancelledError" if who[-1] == "cancelled" else who[-1]}', 'scenario'))
+            # a close() awaited from a message callback that returns normally has closed the session — unless a close was already
+            # under way when it was called (then it returns at once, as every close() does): without any earlier
+            # `initiate_close()` (peer disconnect, logout, a user's app.close()) nobody else can be closing while the soup
+            # session does not report closed
+            started = False
+            for ev, os_, snap in out['log']:
+                if ev in ('eof', 'iclose', 'logout') or (isinstance(ev, list) and ev[0] in ('aclose', 'close')):
+                    started = True
+                hc = [o for o in os_ if isinstance(o, list) and o[0] == 'hclose' and o[-1] == 'ok']
+                if hc and not started and not snap[2][0]:
+                    v.append((f'app.close() awaited from the message callback for {hc[0][1]} returned although the session is not closed '
+                              f'and no other close was under way', 'scenario'))
+                    break
+            # once the application session reports closed no further message callback starts (a close() awaited from a message
+            # callback that carried the close out has returned by then: the backlog stays in the stopped queue)
+            closed_at = None
+            for i, (_, os_, snap) in enumerate(out['log']):
+                if closed_at is None and len(snap[2]) > 1 and snap[2][1]:
+                    closed_at = i
+                elif closed_at is not None:
+                    late = [o for o in os_ if isinstance(o, list) and o[0] == 'msgEnter']
+                    if late:
+                        v.append((f'application message callback for {late[0][1]} started after the application session reported closed', 'scenario'))
+                        break
         else:
             if out['soup_closed'] and out['alive']:
                 v.append((f'tasks still running after the application session closed: {out["alive"]}', 'scenario'))
@@ -1010,7 +1076,12 @@ def app_oracle(sc, out, prop):
                 v.append((f'receive_message() of user(s) {pend_recv} still blocked after close', 'scenario'))
             if sc['has_cb'] and nx == 1:
                 x = obs.index('cbExit')
-                late = [o for o in obs[x:] if isinstance(o, tuple) and o[0] in ('msgEnter', 'msgExit', 'msgRaise')]
+                # the message callback that itself awaited close() necessarily returns after the close completed (as on the soup
+                # session: sess_checks._is_closer) — any other callback must be over by then
+                def is_closer(o):
+                    b = sc['msg_beh'].get(o[1], 'ret')
+                    return o[0] == 'msgExit' and (b in ('close', 'close2') or (isinstance(b, (tuple, list)) and b[0] in ('await_close', 'sleep_close')))
+                late = [o for o in obs[x:] if isinstance(o, tuple) and o[0] in ('msgEnter', 'msgExit', 'msgRaise') and not is_closer(o)]
                 if late:
                     v.append((f'application message callback activity {late[0]} after the close callback had returned', 'scenario'))
     return v
@@ -1247,6 +1318,12 @@ def run_family_app(ctx, prop):
     for _ in range(n_app):
         r = random.Random(rng.random())
         cases.append((gen_app_scenario(r), 'gen'))
+    # callbacks that await close() twice in a row (not a behaviour of the Lean model: oracle only)
+    twice = 0
+    for sc, tag in list(cases):
+        if tag == 'gen' and twice < (12 if ctx.tier == 'quick' else 300) and any(b == 'close' for b in sc['msg_beh'].values()):
+            twice += 1
+            cases.append((dict(sc, msg_beh={k: ('close2' if b == 'close' else b) for k, b in sc['msg_beh'].items()}), 'gen-close2'))
     done, reqs = [], []
     for sc, tag in cases:
         rep = {'kind': 'scenario', 'app_scenario': sc_to_json(sc)}
@@ -1273,9 +1350,11 @@ def run_family_app(ctx, prop):
         lc = late_cancels(norm_scenario(sc), out)
         if lc:
             ctx.count('app-late-cancel-window', lc)
+        for k in handler_closes(out):
+            ctx.count('app-close-from-handler:' + k)
         for what, kind in app_oracle(sc, out, prop):
             ctx.violation(what, {'kind': kind, 'app_scenario': sc_to_json(sc)})
-        if ans is not None:
+        if ans is not None and not oracle_only(sc):
             try:
                 dis = compare(sc, out, ans)
             except Exception as e:   # noqa
@@ -1302,7 +1381,7 @@ def replay_app(ctx, prop, rep):
     for what, kind in app_oracle(sc, out, prop):
         print('ORACLE:', what)
         ctx.violation(what, {'kind': kind, 'app_scenario': sc_to_json(sc)})
-    if ctx.driver and ctx.driver.available:
+    if ctx.driver and ctx.driver.available and not oracle_only(sc):
         ans = ctx.driver.ask([model_request(sc, out['log'])])[0]
         for d in compare(sc, out, ans):
             print('MODEL:', d)
